@@ -1266,7 +1266,8 @@ run_task(_task_t t)
 	}
 
 	/* finally fork out our child */
-	if (UNLIKELY(posix_spawn(&r, echsx, &fa, NULL, args, env) < 0)) {
+	/* posix_spawn() hands back the error, it is not in errno */
+	if (UNLIKELY((errno = posix_spawn(&r, echsx, &fa, NULL, args, env)))) {
 		ECHS_ERR_LOG("cannot fork: %s", STRERR);
 		r = -1;
 	}
